@@ -2,6 +2,7 @@ package main
 
 import (
 	"fmt"
+	"os"
 	"go/constant"
 	"go/token"
 	"go/types"
@@ -282,16 +283,24 @@ func (r *Run) baseEnv(fr *Frame, st *State) *Env {
 
 func (r *Run) loopHead(fr *Frame, li *loopInfo, st *State, reach Term) (Term, bool) {
 	ls := r.loopSpec(fr, li)
+	fr.curLoop = li
+	defer func() { fr.curLoop = nil }()
 	// 1. invariant on entry
 	if ls != nil {
 		env := r.loopEnv(fr, li, st)
 		for i, c := range ls.Invariants {
-			g := env.evalBool(c.E)
+			parts := env.evalBoolParts(c.E)
 			if env.err != nil {
 				r.fatal = fmt.Sprintf("%s loop %d invariant %d: %v", funcKey(fr.fn), li.ordinal, i+1, env.err)
 				return Term{}, false
 			}
-			r.oblige(fr, "inv-entry", "", fmt.Sprintf("%sinv-entry#L%d.%s", r.inlinePrefix(fr), li.ordinal, clauseName(c, i)), reach, g, r.clauseProps(fr, c), li.header.Instrs[0].Pos(), c.Text)
+			for pi, g := range parts {
+				name := fmt.Sprintf("%sinv-entry#L%d.%s", r.inlinePrefix(fr), li.ordinal, clauseName(c, i))
+				if len(parts) > 1 {
+					name += fmt.Sprintf(".%d", pi+1)
+				}
+				r.oblige(fr, "inv-entry", "", name, reach, g, r.clauseProps(fr, c), li.header.Instrs[0].Pos(), c.Text)
+			}
 		}
 	}
 	// 2. havoc everything the loop may write
@@ -323,14 +332,32 @@ func (r *Run) loopBack(fr *Frame, li *loopInfo, st *State, ec Term, variant Term
 	if ls == nil {
 		return
 	}
+	fr.curLoop = li
+	defer func() { fr.curLoop = nil }()
 	env := r.loopEnv(fr, li, st)
+	// all conjuncts are checked in the state at the back edge; none is assumed for the next
+	type pending struct {
+		name string
+		g    Term
+		c    Clause
+	}
+	var pend []pending
 	for i, c := range ls.Invariants {
-		g := env.evalBool(c.E)
+		parts := env.evalBoolParts(c.E)
 		if env.err != nil {
 			r.fatal = fmt.Sprintf("%s loop %d invariant %d: %v", funcKey(fr.fn), li.ordinal, i+1, env.err)
 			return
 		}
-		r.oblige(fr, "inv-step", "", fmt.Sprintf("%sinv-step#L%d.%s", r.inlinePrefix(fr), li.ordinal, clauseName(c, i)), ec, g, r.clauseProps(fr, c), li.header.Instrs[0].Pos(), c.Text)
+		for pi, g := range parts {
+			name := fmt.Sprintf("%sinv-step#L%d.%s", r.inlinePrefix(fr), li.ordinal, clauseName(c, i))
+			if len(parts) > 1 {
+				name += fmt.Sprintf(".%d", pi+1)
+			}
+			pend = append(pend, pending{name, g, c})
+		}
+	}
+	for _, p := range pend {
+		r.oblige(fr, "inv-step", "", p.name, ec, p.g, r.clauseProps(fr, p.c), li.header.Instrs[0].Pos(), p.c.Text)
 	}
 	if hasVar {
 		v := env.eval(ls.Decreases)
@@ -375,7 +402,7 @@ func (r *Run) funcProps(fr *Frame) []string {
 
 // havocLoop forgets the cells and heap components written anywhere in the loop body.
 func (r *Run) havocLoop(fr *Frame, li *loopInfo, st *State) {
-	ws := &writeSet{cells: map[cellKey]types.Type{}, comps: map[string]bool{}}
+	ws := newWriteSet()
 	var blocks []*ssa.BasicBlock
 	for b := range li.body {
 		blocks = append(blocks, b)
@@ -399,7 +426,43 @@ func (r *Run) havocLoop(fr *Frame, li *loopInfo, st *State) {
 		sort.Strings(cs)
 		for _, c := range cs {
 			if _, ok := r.compSorts[c]; !ok {
-				continue
+				// a component named by a contract whose sort is not known yet: forget everything (sound)
+				dbg("loop write set names unknown component %s in %s: havoc all", c, funcKey(fr.fn))
+				r.warn("loop write set names a component of unknown sort (%s): everything havocked", c)
+				r.havocAll(st, tTrue)
+				for k, typ := range ws.cells {
+					st.cells[k] = r.freshTyped("lv."+k.alloc.Comment, typ, st)
+				}
+				return
+			}
+			if !ws.wild[c] && strings.HasPrefix(c, "F.") {
+				// every write to this component in the loop goes to a loop-invariant object: forget only those
+				var idxs []Term
+				ok := true
+				for _, site := range ws.sites {
+					if site.comp != c {
+						continue
+					}
+					t, good := r.resolveInvariantBase(site, st, ws)
+					if !good {
+						ok = false
+						break
+					}
+					idxs = append(idxs, t)
+				}
+				if ok && len(idxs) > 0 {
+					arr := r.heapGet(st, c)
+					seen := map[string]bool{}
+					for _, ix := range idxs {
+						if seen[ix.S] {
+							continue
+						}
+						seen[ix.S] = true
+						arr = Store(arr, ix, r.ctx.Fresh("lh."+c, arrayValSort(r.compSort(c))))
+					}
+					r.heapSet(st, c, r.ctx.Define("lh."+c, arr))
+					continue
+				}
 			}
 			r.heapSet(st, c, r.ctx.Fresh("lh."+c, r.compSort(c)))
 		}
@@ -412,11 +475,33 @@ func (r *Run) havocLoop(fr *Frame, li *loopInfo, st *State) {
 	}
 }
 
+type writeSite struct {
+	comp string
+	base ssa.Value
+	fr   *Frame
+}
+
 type writeSet struct {
 	cells  map[cellKey]types.Type
 	comps  map[string]bool
+	wild   map[string]bool // components with a write whose target object is not a loop-invariant value
+	sites  []writeSite     // field writes whose target object is an SSA value (resolved at havoc time)
 	all    bool
 	allocs bool
+}
+
+func newWriteSet() *writeSet {
+	return &writeSet{cells: map[cellKey]types.Type{}, comps: map[string]bool{}, wild: map[string]bool{}}
+}
+
+func (ws *writeSet) addWild(c string) {
+	ws.comps[c] = true
+	ws.wild[c] = true
+}
+
+func (ws *writeSet) addSite(c string, base ssa.Value, fr *Frame) {
+	ws.comps[c] = true
+	ws.sites = append(ws.sites, writeSite{c, base, fr})
 }
 
 // scanWrites conservatively collects what a block may write (by component).
@@ -437,9 +522,9 @@ func (r *Run) scanWrites(fr *Frame, b *ssa.BasicBlock, ws *writeSet, depth int) 
 		case *ssa.MapUpdate:
 			if m, ok := ins.Map.Type().Underlying().(*types.Map); ok {
 				h, v := r.mapComps(m)
-				ws.comps[h] = true
-				ws.comps[v] = true
-				ws.comps[r.mapLenComp(m)] = true
+				ws.addWild(h)
+				ws.addWild(v)
+				ws.addWild(r.mapLenComp(m))
 			}
 		case *ssa.Call:
 			r.scanCall(fr, &ins.Call, ws, depth)
@@ -459,14 +544,23 @@ func (r *Run) scanStoreTarget(fr *Frame, addr ssa.Value, ws *writeSet) {
 			ws.cells[cellKey{fr.id, a}] = allocElem(a)
 		} else {
 			c, _ := r.boxComp(allocElem(a))
-			ws.comps[c] = true
+			ws.addWild(c)
 		}
 	case *ssa.FieldAddr:
 		comp := r.fieldAddrComp(a)
 		if comp == "" {
-			ws.all = true
+			ws.all = true; dbg("ws.all #1 in %s", funcKey(fr.fn))
 		} else {
-			ws.comps[comp] = true
+			// the object written: the base of the (possibly nested) FieldAddr chain
+			base := a.X
+			for {
+				if in, ok := base.(*ssa.FieldAddr); ok {
+					base = in.X
+					continue
+				}
+				break
+			}
+			ws.addSite(comp, base, fr)
 		}
 	case *ssa.IndexAddr:
 		var et types.Type
@@ -479,11 +573,11 @@ func (r *Run) scanStoreTarget(fr *Frame, addr ssa.Value, ws *writeSet) {
 			}
 		}
 		if et == nil {
-			ws.all = true
+			ws.all = true; dbg("ws.all #2 in %s", funcKey(fr.fn))
 			return
 		}
 		c, _ := r.elemComp(et)
-		ws.comps[c] = true
+		ws.addWild(c)
 	case *ssa.FreeVar:
 		// captured variable: its box (or the parent's cell)
 		v := fr.free[a]
@@ -492,23 +586,23 @@ func (r *Run) scanStoreTarget(fr *Frame, addr ssa.Value, ws *writeSet) {
 			return
 		}
 		c, _ := r.boxComp(a.Type().Underlying().(*types.Pointer).Elem())
-		ws.comps[c] = true
+		ws.addWild(c)
 	case *ssa.Global:
 		l := r.globalLoc(a.Object().(*types.Var))
-		ws.comps[l.Comp] = true
+		ws.addWild(l.Comp)
 	default:
 		// store through a pointer value
 		if pt, ok := addr.Type().Underlying().(*types.Pointer); ok {
 			switch pt.Elem().Underlying().(type) {
 			case *types.Struct, *types.Array:
-				ws.all = true
+				ws.all = true; dbg("ws.all #3 in %s", funcKey(fr.fn))
 			default:
 				c, _ := r.boxComp(pt.Elem())
-				ws.comps[c] = true
+				ws.addWild(c)
 			}
 			return
 		}
-		ws.all = true
+		ws.all = true; dbg("ws.all #4 in %s", funcKey(fr.fn))
 	}
 }
 
@@ -538,7 +632,7 @@ func (r *Run) scanCall(fr *Frame, c *ssa.CallCommon, ws *writeSet, depth int) {
 			r.scanSpecAssigns(sp, ws)
 			return
 		}
-		ws.all = true
+		ws.all = true; dbg("ws.all #5 in %s", funcKey(fr.fn))
 		return
 	}
 	switch f := c.Value.(type) {
@@ -547,14 +641,14 @@ func (r *Run) scanCall(fr *Frame, c *ssa.CallCommon, ws *writeSet, depth int) {
 		case "append", "copy":
 			if s, ok := c.Args[0].Type().Underlying().(*types.Slice); ok {
 				comp, _ := r.elemComp(s.Elem())
-				ws.comps[comp] = true
+				ws.addWild(comp)
 				ws.allocs = true
 			}
 		case "delete":
 			if m, ok := c.Args[0].Type().Underlying().(*types.Map); ok {
 				h, _ := r.mapComps(m)
-				ws.comps[h] = true
-				ws.comps[r.mapLenComp(m)] = true
+				ws.addWild(h)
+				ws.addWild(r.mapLenComp(m))
 			}
 		}
 		return
@@ -576,7 +670,7 @@ func (r *Run) scanCall(fr *Frame, c *ssa.CallCommon, ws *writeSet, depth int) {
 			return
 		}
 	}
-	ws.all = true
+	ws.all = true; dbg("ws.all #6 in %s", funcKey(fr.fn))
 }
 
 // staticClosure: the callee is loaded from a local cell that is only ever assigned one function literal.
@@ -621,17 +715,17 @@ func (r *Run) scanStatic(fr *Frame, f *ssa.Function, c *ssa.CallCommon, ws *writ
 						if comp == "E.*" {
 							for c := range r.compSorts {
 								if strings.HasPrefix(c, "E.") {
-									ws.comps[c] = true
+									ws.addWild(c)
 								}
 							}
 							continue
 						}
-						ws.comps[comp] = true
+						ws.addWild(comp)
 					}
 				}
 				pt := fa.X.Type().Underlying().(*types.Pointer)
 				if hc := r.heldComp(pt, pt.Elem().Underlying().(*types.Struct).Field(fa.Field).Name()); hc != "" {
-					ws.comps[hc] = true
+					ws.addWild(hc)
 				}
 			}
 		}
@@ -648,10 +742,11 @@ func (r *Run) scanStatic(fr *Frame, f *ssa.Function, c *ssa.CallCommon, ws *writ
 		sp = r.specs.Funcs[f.String()]
 	}
 	if sp != nil && !sp.Inline {
-		r.scanSpecAssigns(sp, ws)
-		for _, gb := range sp.Ghost {
-			_ = gb
+		var names []string
+		for _, p := range f.Params {
+			names = append(names, p.Name())
 		}
+		r.scanSpecAssigns(sp, ws, &callCtx{fr: fr, cc: c, names: names})
 		return
 	}
 	if (f.Parent() != nil || (sp != nil && sp.Inline)) && depth < maxInlineDepth && len(f.Blocks) > 0 {
@@ -664,6 +759,8 @@ func (r *Run) scanStatic(fr *Frame, f *ssa.Function, c *ssa.CallCommon, ws *writ
 					if a, ok := mc.Bindings[i].(*ssa.Alloc); ok {
 						if isCellAlloc(a) {
 							sub.free[fv] = locVal(&Loc{Kind: LCell, Cell: cellKey{fr.id, a}, Typ: allocElem(a)}, a.Type())
+						} else if v, ok := fr.regs[a]; ok {
+							sub.free[fv] = v
 						}
 					} else if pfv, ok := mc.Bindings[i].(*ssa.FreeVar); ok {
 						sub.free[fv] = fr.free[pfv]
@@ -671,7 +768,8 @@ func (r *Run) scanStatic(fr *Frame, f *ssa.Function, c *ssa.CallCommon, ws *writ
 				}
 			}
 		}
-		inner := &writeSet{cells: map[cellKey]types.Type{}, comps: ws.comps}
+		inner := newWriteSet()
+		inner.comps, inner.wild = ws.comps, ws.wild
 		for _, b := range f.Blocks {
 			r.scanWrites(sub, b, inner, depth+1)
 		}
@@ -680,11 +778,12 @@ func (r *Run) scanStatic(fr *Frame, f *ssa.Function, c *ssa.CallCommon, ws *writ
 				ws.cells[k] = t
 			}
 		}
+		ws.sites = append(ws.sites, inner.sites...)
 		ws.all = ws.all || inner.all
 		ws.allocs = ws.allocs || inner.allocs
 		return
 	}
-	ws.all = true
+	ws.all = true; dbg("ws.all #7 in %s", funcKey(fr.fn))
 }
 
 func findMakeClosure(parent *ssa.Function, f *ssa.Function) *ssa.MakeClosure {
@@ -698,24 +797,39 @@ func findMakeClosure(parent *ssa.Function, f *ssa.Function) *ssa.MakeClosure {
 	return nil
 }
 
-func (r *Run) scanSpecAssigns(sp *FuncSpec, ws *writeSet) {
+func (r *Run) scanSpecAssigns(sp *FuncSpec, ws *writeSet, ctx ...*callCtx) {
 	if sp.Implements != "" {
 		if isp := r.specs.Funcs["iface:"+sp.Implements]; isp != nil {
 			r.scanSpecAssigns(isp, ws)
 		}
 	}
 	if sp.Havoc {
-		ws.all = true
+		ws.all = true; dbg("ws.all #8 in %s", sp.Key)
 		return
 	}
 	for _, a := range sp.Assigns {
+		if id, ok := a.(*EIdent); ok && id.Name == "allocates" {
+			ws.allocs = true
+			continue
+		}
+		if len(ctx) > 0 && ctx[0] != nil {
+			// x.f where x is a parameter of the callee: the object is the call's argument
+			if sel, ok := a.(*ESel); ok {
+				if id, ok := sel.X.(*EIdent); ok {
+					if comp, base := ctx[0].paramField(r, id.Name, sel.Sel); comp != "" {
+						ws.addSite(comp, base, ctx[0].fr)
+						continue
+					}
+				}
+			}
+		}
 		comps, all := r.assignComps(sp, a)
 		if all {
-			ws.all = true
+			ws.all = true; dbg("ws.all #9 in %s", sp.Key)
 			return
 		}
 		for _, c := range comps {
-			ws.comps[c] = true
+			ws.addWild(c)
 		}
 	}
 	for _, e := range sp.Ensures {
@@ -851,12 +965,26 @@ func (r *Run) globalLoc(obj *types.Var) *Loc {
 			t := Term{name, srt}
 			r.ctx.Assert(r.wellTyped(t, obj.Type(), nil))
 			if isErrorType(obj.Type()) {
-				r.ctx.Assert(Not(Eq(ifTag(t), mkInt(0))))
-				for _, prev := range r.errGlobals {
-					r.ctx.Assert(Not(Eq(t, prev)))
+				inRepo := obj.Pkg() != nil && strings.HasPrefix(obj.Pkg().Path(), repoModule)
+				fresh, alias := r.prog.globalInit(obj)
+				switch {
+				case alias != nil:
+					// initialised as a copy of another variable: same value
+					if al := r.globalLoc(alias); al.Kind == LConst {
+						r.ctx.Assert(Eq(t, Term{al.Comp, al.Sort}))
+					}
+				case fresh || !inRepo:
+					// a new error value created during initialisation: non-nil and different from all others
+					r.ctx.Assert(Not(Eq(ifTag(t), mkInt(0))))
+					for _, prev := range r.errGlobals {
+						r.ctx.Assert(Not(Eq(t, prev)))
+					}
+					r.errGlobals = append(r.errGlobals, t)
+					if inRepo {
+						r.ctx.Assert(Eq(ifTag(t), r.tagByName("*errors.errorString")))
+					}
+					r.trusted["error variables initialised with errors.New/fmt.Errorf (and exported errors of other packages) are non-nil and pairwise distinct"] = true
 				}
-				r.errGlobals = append(r.errGlobals, t)
-				r.trusted["package-level error variables that are never reassigned are non-nil and pairwise distinct"] = true
 			}
 		}
 		return &Loc{Kind: LConst, Comp: name, Sort: srt, Typ: obj.Type()}
@@ -1184,4 +1312,116 @@ func ifaceKey(t types.Type, method string) string {
 		return p + n.Obj().Name() + "." + method
 	}
 	return typeName(t) + "." + method
+}
+
+func dbg(f string, a ...interface{}) {
+	if os.Getenv("GOVC_DEBUG") != "" {
+		fmt.Fprintf(os.Stderr, "debug: "+f+"\n", a...)
+	}
+}
+
+// resolveInvariantBase: the object a loop's field write goes to, when it is the same object in every iteration.
+func (r *Run) resolveInvariantBase(site writeSite, st *State, ws *writeSet) (Term, bool) {
+	fr := site.fr
+	switch x := site.base.(type) {
+	case *ssa.Parameter:
+		if v, ok := fr.regs[x]; ok && v.Kind == VTerm {
+			return v.T, true
+		}
+	case *ssa.UnOp:
+		if x.Op != token.MUL {
+			return Term{}, false
+		}
+		switch a := x.X.(type) {
+		case *ssa.Alloc:
+			if fr.id == -1 {
+				return Term{}, false
+			}
+			if isCellAlloc(a) {
+				key := cellKey{fr.id, a}
+				if _, written := ws.cells[key]; written {
+					return Term{}, false
+				}
+				if v, ok := st.cells[key]; ok && v.Kind == VTerm {
+					return v.T, true
+				}
+				return Term{}, false
+			}
+			bc, _ := r.boxComp(allocElem(a))
+			if ws.comps[bc] {
+				return Term{}, false
+			}
+			if p, ok := fr.regs[a]; ok {
+				if l := r.derefLoc(p); l != nil {
+					if v := r.load(st, l); v.Kind == VTerm {
+						return v.T, true
+					}
+				}
+			}
+		case *ssa.FreeVar:
+			p, ok := fr.free[a]
+			if !ok {
+				return Term{}, false
+			}
+			l := r.derefLoc(p)
+			if l == nil {
+				return Term{}, false
+			}
+			switch l.Kind {
+			case LCell:
+				if _, written := ws.cells[l.Cell]; written {
+					return Term{}, false
+				}
+			case LComp:
+				if ws.comps[l.Comp] {
+					return Term{}, false
+				}
+			default:
+				return Term{}, false
+			}
+			if v := r.load(st, l); v.Kind == VTerm {
+				return v.T, true
+			}
+		}
+	}
+	return Term{}, false
+}
+
+type callCtx struct {
+	fr    *Frame
+	cc    *ssa.CallCommon
+	names []string
+}
+
+// paramField: component and argument value for "param.field" at this call site ("" if not a plain field of a
+// pointer-to-struct parameter).
+func (c *callCtx) paramField(r *Run, param, field string) (string, ssa.Value) {
+	for i, n := range c.names {
+		if n != param || i >= len(c.cc.Args) {
+			continue
+		}
+		arg := c.cc.Args[i]
+		pt, ok := arg.Type().Underlying().(*types.Pointer)
+		if !ok {
+			return "", nil
+		}
+		stt, ok := pt.Elem().Underlying().(*types.Struct)
+		if !ok {
+			return "", nil
+		}
+		for j := 0; j < stt.NumFields(); j++ {
+			if stt.Field(j).Name() == field {
+				comp, _ := r.fieldComp(stt, structName(pt.Elem()), j)
+				return comp, arg
+			}
+		}
+		if n, ok := pt.Elem().(*types.Named); ok {
+			if gs, ok := r.specs.Ghosts[n.Obj().Name()+"."+field]; ok {
+				comp := "F." + structName(pt.Elem()) + "." + field
+				r.regComp(comp, arraySort(SInt, gs))
+				return comp, arg
+			}
+		}
+	}
+	return "", nil
 }
